@@ -219,14 +219,17 @@ Lemma df_vfs_write : forall n d o, DF (vfs_write n d o). Proof. intros. minv. Qe
 Lemma df_reset_nak_activity_parameters : DF reset_nak_activity_parameters. Proof. minv. Qed.
 Lemma df_vfs_op_tree : forall f, DF (vfs_op_tree f). Proof. intro. minv. Qed.
 #[local] Hint Resolve df_lost_segment_handling df_vfs_write df_reset_nak_activity_parameters df_vfs_op_tree : minv.
-Lemma df_handle_eof_without_previous_metadata : forall ck sz, DF (handle_eof_without_previous_metadata ck sz).
-Proof. intros. minv. Qed.
+(* (F32 repair) only the EOF (no error) keeps the handler state; an EOF (cancel) is an ordinary EOF (cancel), see
+   handle_eof_without_previous_metadata_spec below *)
+Lemma df_handle_eof_without_previous_metadata : forall c ck sz,
+  (c =? C_NO_ERROR) = true -> DF (handle_eof_without_previous_metadata c ck sz).
+Proof. intros c ck sz Hc. unfold handle_eof_without_previous_metadata. rewrite Hc. cbn [negb]. minv. Qed.
 Lemma df_handle_fd_without_previous_metadata : forall f o d, DF (handle_fd_without_previous_metadata f o d).
 Proof. intros. minv. Qed.
 Lemma df_notice_of_completion : DF notice_of_completion. Proof. minv. Qed.
 Lemma df_prepare_finished_pdu : DF prepare_finished_pdu. Proof. minv. Qed.
 Lemma df_start_positive_ack_procedure : DF start_positive_ack_procedure. Proof. minv. Qed.
-#[local] Hint Resolve df_handle_eof_without_previous_metadata df_handle_fd_without_previous_metadata
+#[local] Hint Resolve df_handle_fd_without_previous_metadata
   df_notice_of_completion df_prepare_finished_pdu df_start_positive_ack_procedure : minv.
 
 Ltac fstep :=
@@ -301,7 +304,7 @@ Proof.
   intros s H. unfold checksum_verify. mrun.
   destruct ((p_cktype (d_p s) =? CK_NULL) || p_md_only (d_p s)).
   - mrun. mfin. ni.
-  - mrun. fstep. destruct (bytes_eqb a (p_crc32 (d_p s))).
+  - mrun. fstep. destruct (bytes_eqb a (p_crc32 (d_p s)) && _).
     + mrun. mfin. ni.
     + mrun. eapply post_bind; [apply declare_fault_Jp; auto with iso | intros s2 [Hi| ->]; [right; exact Hi | left; ni] |].
       intros fh s2 [Hn _]; mrun; mfin; ni.
@@ -399,6 +402,15 @@ Proof.
   - flast.
 Qed.
 
+Lemma handle_eof_without_previous_metadata_spec : forall c ck sz s, NI s ->
+  post (fun _ => J) J (handle_eof_without_previous_metadata c ck sz s).
+Proof.
+  intros c ck sz s H. destruct (c =? C_NO_ERROR) eqn:Hc.
+  - eapply post_weaken; [apply frame_last; [apply df_handle_eof_without_previous_metadata; exact Hc | exact H]
+                        | intros; jdone | intros; jdone].
+  - unfold handle_eof_without_previous_metadata. rewrite Hc. cbn [negb]. apply handle_eof_pdu_spec. exact H.
+Qed.
+
 Lemma init_vfs_handling_spec : forall b s, NI s -> post (fun _ => J) J (init_vfs_handling b s).
 Proof.
   intros b s H. unfold init_vfs_handling. apply post_catch with (E1 := NI).
@@ -453,10 +465,15 @@ Lemma handle_waiting_for_missing_metadata_spec : forall pkt s, NI s ->
 Proof.
   intros pkt s H. unfold handle_waiting_for_missing_metadata.
   destruct pkt as [[ | | | | | | | ]|]; try flast.
-  eapply post_bind; [apply handle_metadata_packet_spec; exact H | intros; assumption |].
-  intros u s2 HJ. mrun. destruct (p_deferred (d_p s2)) eqn:Hd; [|mfin; exact HJ].
-  assert (NI s2) as Hn2 by (apply J0_NI; [jdone | intro X; rewrite X in Hd; discriminate Hd]).
-  flast.
+  - eapply post_bind; [apply handle_metadata_packet_spec; exact H | intros; assumption |].
+    intros u s2 HJ. mrun. destruct (p_deferred (d_p s2)) eqn:Hd; [|mfin; exact HJ].
+    assert (NI s2) as Hn2 by (apply J0_NI; [jdone | intro X; rewrite X in Hd; discriminate Hd]).
+    flast.
+  - (* an EOF (cancel) may end the transaction (F32 repair) *)
+    eapply post_bind; [apply handle_eof_without_previous_metadata_spec; exact H | intros; assumption |].
+    intros u s2 HJ. mrun. destruct (p_deferred (d_p s2)) eqn:Hd; [|mfin; exact HJ].
+    assert (NI s2) as Hn2 by (apply J0_NI; [jdone | intro X; rewrite X in Hd; discriminate Hd]).
+    flast.
 Qed.
 
 Lemma J_reset : forall s, J (s <| d_p := fresh_params |> <| d_state := ST_IDLE |> <| d_step := DS_IDLE |>).
@@ -661,7 +678,8 @@ Proof.
     unfold common_first_packet_handler. mrun. cbn. rewrite Hi. cbn [negb]. mrun.
     eapply post_weaken; [apply handle_metadata_packet_spec; ni | intros; jdone | intros; jdone].
   - unfold common_first_packet_not_metadata, common_first_packet_handler. mrun. cbn. rewrite Hi.
-    cbn [negb]. mrun. flast.
+    cbn [negb]. mrun.
+    eapply post_weaken; [apply handle_eof_without_previous_metadata_spec; ni | intros; jdone | intros; jdone].
 Qed.
 
 Lemma state_machine_spec : forall pkt s, J0 s -> post (fun _ => J0) J0 (Dest.state_machine pkt s).
